@@ -229,3 +229,69 @@ func init() {
 		return err
 	})
 }
+
+// ---- patrickmn/go-cache: a map without expiry (TTL expiry is outside every claim that uses it) ----
+
+func (i *interpreter) goCache(recv value) *omap {
+	tab, _ := i.ext["gocache"].(map[*value]*omap)
+	if tab == nil {
+		tab = map[*value]*omap{}
+		i.ext["gocache"] = tab
+	}
+	p := recv.(*value)
+	if p == nil {
+		panic(targetPanic{"go-cache: nil cache"})
+	}
+	m := tab[p]
+	if m == nil {
+		m = makeMap(types.Typ[types.String], 0).(*omap)
+		tab[p] = m
+	}
+	return m
+}
+
+func init() {
+	const cachePkg = "github.com/patrickmn/go-cache"
+	registerIntrinsic(cachePkg+".New", func(i *interpreter, fr *frame, fn *ssa.Function, a []value) value {
+		outerT := i.lookupType(cachePkg, "Cache")
+		innerT := i.lookupType(cachePkg, "cache")
+		var inner value = zero(innerT)
+		var outer value = structure{&inner}
+		_ = outerT
+		return &outer
+	})
+	registerIntrinsic("(*"+cachePkg+".cache).Get", func(i *interpreter, fr *frame, fn *ssa.Function, a []value) value {
+		v, ok := i.goCache(a[0]).lookup(a[1])
+		if !ok {
+			return tuple{iface{}, false}
+		}
+		return tuple{v, true}
+	})
+	set := func(i *interpreter, fr *frame, fn *ssa.Function, a []value) value {
+		i.ctx.noEffect("go-cache Set")
+		i.goCache(a[0]).insert(a[1], a[2])
+		return nil
+	}
+	registerIntrinsic("(*"+cachePkg+".cache).Set", set)
+	registerIntrinsic("(*"+cachePkg+".cache).SetDefault", set)
+	registerIntrinsic("(*"+cachePkg+".cache).Delete", func(i *interpreter, fr *frame, fn *ssa.Function, a []value) value {
+		i.ctx.noEffect("go-cache Delete")
+		i.goCache(a[0]).delete(a[1])
+		return nil
+	})
+	registerIntrinsic("(*"+cachePkg+".cache).Flush", func(i *interpreter, fr *frame, fn *ssa.Function, a []value) value {
+		i.goCache(a[0]).clear()
+		return nil
+	})
+	registerIntrinsic("(*"+cachePkg+".cache).ItemCount", func(i *interpreter, fr *frame, fn *ssa.Function, a []value) value {
+		return i.goCache(a[0]).len()
+	})
+}
+
+func init() {
+	// context plumbing of the (otherwise no-op) logging packages must keep the context
+	keepCtx := func(i *interpreter, fr *frame, fn *ssa.Function, a []value) value { return a[0] }
+	registerIntrinsic("sigs.k8s.io/controller-runtime/pkg/log.IntoContext", keepCtx)
+	registerIntrinsic("github.com/go-logr/logr.NewContext", keepCtx)
+	registerIntrinsic("k8s.io/klog/v2.NewContext", keepCtx)
+}
